@@ -455,7 +455,8 @@ class PreTranslator(ASTTranslator):
 extractors_cache = {}
 
 def create_extractors(code_key, tree, globals, locals, special_functions, const_functions, outer_names=()):
-    result = extractors_cache.get(code_key)
+    cache_key = code_key, type(tree), tuple(sorted(outer_names))
+    result = extractors_cache.get(cache_key)
     if not result:
         pretranslator = PreTranslator(tree, globals, locals, special_functions, const_functions, outer_names)
         extractors = {}
@@ -470,5 +471,5 @@ def create_extractors(code_key, tree, globals, locals, special_functions, const_
                 def extractor(globals, locals, code=code):
                     return eval(code, globals, locals)
             extractors[src] = extractor
-        result = extractors_cache[code_key] = tree, extractors
+        result = extractors_cache[cache_key] = tree, extractors
     return result
